@@ -649,17 +649,405 @@ def check_wf_packet(ctx, t, model_enc, model_dec_of):
     return b
 
 
+# ------------------------------------------------------------------ EVERY packet the library can build
+# The statement starts "Every SoupBinTCP packet the library can build …".  Whether a constructor call + to_bytes() succeeds is decided
+# by the library, not by `wfPkt`: texts outside ASCII, fields wider than their column, integer / None / bytes arguments where a str
+# is documented, payloads given as bytearray / memoryview / list of ints.  A case = constructor name + argument values; when the
+# library builds AND encodes it, the framing clauses of the statement must hold for the bytes it produced:
+#   reported length = bytes produced; 2-byte big-endian prefix = number of bytes that follow; third byte = the class's type
+#   character; decoding those bytes gives a packet of that class (never another one); a following packet on the same stream is
+#   framed correctly by the library's own reader (SoupMessageReader.deserialize on  encoding ++ next packet).
+# "decodes to an EQUAL packet" is demanded for debug text and data payloads of every content (they have no width), and for login
+# packets only inside the documented widths (that is `check_wf_packet`): a login field wider than its column is cut by design.
+ANY_CLASSES = {'LoginRequest': 4, 'LoginAccepted': 2, 'LoginRejected': 1, 'SequencedData': 1, 'UnSequencedData': 1, 'Debug': 1,
+               'ClientHeartbeat': 0, 'ServerHeartbeat': 0, 'EndOfSession': 0, 'LogoutRequest': 0}
+CLASS_KIND = {'LoginRequest': 'loginReq', 'LoginAccepted': 'loginAcc', 'LoginRejected': 'loginRej', 'SequencedData': 'seqData',
+              'UnSequencedData': 'unseqData', 'Debug': 'debug', 'ClientHeartbeat': 'clientHb', 'ServerHeartbeat': 'serverHb',
+              'EndOfSession': 'endOfSession', 'LogoutRequest': 'logoutReq'}
+# code points by repertoire: 7-bit, ISO-8859-1 upper half, other BMP (2- and 3-byte UTF-8), astral (4-byte UTF-8), lone surrogates
+REPERTOIRES = {
+    'ascii': lambda rng: rng.choice([rng.randrange(32, 127), rng.randrange(128), 32, 0]),
+    'latin1': lambda rng: rng.randrange(0x80, 0x100),
+    'bmp': lambda rng: rng.choice([0x20ac, 0x3b1, 0x416, 0x4e2d, 0xff21, 0x100, 0x7ff, 0x800, 0xfffd, rng.randrange(0x100, 0xd800)]),
+    'astral': lambda rng: rng.choice([0x1f600, 0x10000, 0x10ffff, rng.randrange(0x10000, 0x110000)]),
+    'surrogate': lambda rng: rng.randrange(0xd800, 0xe000),
+}
+
+
+def gen_any_text(rng, width=None):
+    """text for a str argument: any repertoire (pure or mixed into ASCII), any length relative to the column width"""
+    rep = rng.choice(['ascii', 'ascii', 'latin1', 'latin1', 'bmp', 'bmp', 'astral', 'surrogate'])
+    if width is None:
+        n = rng.choice([0, 1, 1, 2, 3, 5, 8, 30, 127, 128, 255, 256, 1000]) if rng.random() < 0.6 else rng.randint(0, 40)
+    else:
+        n = rng.choice([0, 1, width - 1, width, width, width + 1, width + 5, 3 * width]) if rng.random() < 0.7 else rng.randint(0, width)
+    mix = rng.random() < 0.5
+    return [REPERTOIRES[rep](rng) if (not mix or rng.random() < 0.3) else rng.randrange(33, 127) for _ in range(n)]
+
+
+def gen_any_arg(rng, cls, i):
+    """argument i of the constructor of cls, as a JSON-able tagged value"""
+    c = rng.random()
+    if cls in ('SequencedData', 'UnSequencedData'):
+        d = gen_payload(rng, 'quick')
+        if len(d) > 300 and c >= 0.3:
+            d = d[:300]
+        if c < 0.3:
+            return {'bytes': d.hex()}
+        if c < 0.5:
+            return {'bytearray': d.hex()}
+        if c < 0.65:
+            return {'memoryview': d.hex()}
+        if c < 0.8:
+            return {'ints': list(d[:64])}
+        if c < 0.86:
+            return {'str': gen_any_text(rng)[:40]}
+        if c < 0.92:
+            return {'int': rng.choice([0, 1, 3, 255, 70000])}
+        if c < 0.96:
+            return {'none': 1}
+        return {'bytes': bytes(rng.choice([32766, 32767, 32768, 40000, 65534, 65535, 65536])).hex()}
+    if cls == 'Debug':
+        if c < 0.8:
+            return {'str': gen_any_text(rng)}
+        if c < 0.86:
+            return {'str': [rng.randrange(32, 127)] * rng.choice([32765, 32766, 32767, 32768, 65535, 65536])}
+        if c < 0.9:   # the largest texts whose character count fits while the byte count may not
+            return {'str': [rng.choice([0xe9, 0x20ac, 0x1f600])] * rng.choice([10922, 16383, 16384, 21845, 32766, 32767])}
+        if c < 0.94:
+            return {'bytes': rng.randbytes(rng.randint(0, 8)).hex()}
+        if c < 0.97:
+            return {'int': rng.randint(0, 99)}
+        return {'none': 1}
+    if cls == 'LoginRejected':
+        if c < 0.5:
+            return {'str': [rng.choice([65, 83])]}
+        if c < 0.7:
+            return {'reason': rng.choice(['A', 'S'])}
+        if c < 0.9:
+            return {'str': gen_any_text(rng, 1)}
+        return {'int': rng.choice([65, 83, 0])}
+    # login packets: LoginRequest(user, password, session, sequence), LoginAccepted(session_id, sequence)
+    width = {'LoginRequest': [6, 10, 10, 20], 'LoginAccepted': [10, 20]}[cls][i]
+    if rng.random() < 0.6:      # most arguments plain, so that one odd argument at a time decides what happens
+        if width == 20:
+            q = gen_seq_int(rng)
+            return {'int': q} if rng.random() < 0.5 else {'str': cps(str(q))}
+        return {'str': cps(gen_text(rng, width))}
+    if width == 20:
+        if c < 0.35:
+            return {'int': gen_seq_int(rng)}
+        if c < 0.45:
+            return {'int': rng.choice([10**20, -10**19, 10**25, -(10**30), 2**70])}
+        if c < 0.7:
+            return {'str': cps(str(gen_seq_int(rng)))}
+        if c < 0.8:
+            return {'str': cps(rng.choice(['007', '+5', ' 5', '5 ', '1_0', 'abc', '', '-', '٣', '１２', '1e3', '0x10', '²']))}
+        if c < 0.95:
+            return {'str': gen_any_text(rng, 20)}
+        return {'none': 1}
+    if c < 0.85:
+        return {'str': gen_any_text(rng, width)}
+    if c < 0.9:
+        return {'int': rng.randint(0, 10**8)}
+    if c < 0.95:
+        return {'bytes': rng.randbytes(rng.randint(0, width + 2)).hex()}
+    return {'none': 1}
+
+
+def gen_any_case(rng):
+    cls = rng.choice(['LoginRequest', 'LoginRequest', 'LoginAccepted', 'LoginAccepted', 'LoginRejected', 'SequencedData',
+                      'UnSequencedData', 'Debug', 'Debug', 'Debug', 'ClientHeartbeat', 'ServerHeartbeat', 'EndOfSession', 'LogoutRequest'])
+    return {'cls': cls, 'args': [gen_any_arg(rng, cls, i) for i in range(ANY_CLASSES[cls])]}
+
+
+def boundary_any():
+    """every repertoire x every str-typed argument, alone and between ASCII, short and at the column width"""
+    out = []
+    txt = lambda s: {'str': cps(s)}
+    samples = ['é', 'ÿ', '\x80', '€', 'α', '中', '\U0001f600', '\ud800', 'é€', 'café closed', 'a€b', '€' * 5, 'é' * 6, 'é' * 10, 'é' * 20,
+               'x\x7f', '\x7f', '\x00']
+    for s in samples:
+        out.append({'cls': 'Debug', 'args': [txt(s)]})
+        out.append({'cls': 'LoginRequest', 'args': [txt(s), txt('pw'), txt('s'), txt('1')]})
+        out.append({'cls': 'LoginRequest', 'args': [txt('u'), txt(s), txt('s'), txt('1')]})
+        out.append({'cls': 'LoginRequest', 'args': [txt('u'), txt('pw'), txt(s), txt('1')]})
+        out.append({'cls': 'LoginRequest', 'args': [txt('u'), txt('pw'), txt('s'), txt(s)]})
+        out.append({'cls': 'LoginAccepted', 'args': [txt(s), {'int': 1}]})
+        out.append({'cls': 'LoginAccepted', 'args': [txt('s'), txt(s)]})
+        out.append({'cls': 'LoginRejected', 'args': [txt(s)]})
+        out.append({'cls': 'SequencedData', 'args': [txt(s)]})
+    for n in (32765, 32766, 32767, 32768):
+        out.append({'cls': 'Debug', 'args': [{'str': [97] * n}]})
+        out.append({'cls': 'Debug', 'args': [{'str': [97] * (n - 1) + [0xe9]}]})
+        for tag in ('bytes', 'bytearray', 'memoryview'):
+            out.append({'cls': 'SequencedData', 'args': [{tag: bytes(n).hex()}]})
+    for tag in ('bytes', 'bytearray', 'memoryview'):
+        for d in (b'', b'\x00', b'\x00\x03S', b'abc'):
+            out.append({'cls': 'UnSequencedData', 'args': [{tag: d.hex()}]})
+    out.append({'cls': 'UnSequencedData', 'args': [{'ints': [0, 3, 83, 255]}]})
+    out.append({'cls': 'SequencedData', 'args': [{'ints': []}]})
+    out.append({'cls': 'SequencedData', 'args': [{'int': 3}]})
+    for a in ({'int': 5}, {'none': 1}, txt('x' * 7), txt('x' * 21)):
+        out.append({'cls': 'LoginRequest', 'args': [a, a, a, a]})
+        out.append({'cls': 'LoginAccepted', 'args': [a, a]})
+    return out
+
+
+def any_value(v):
+    """the python object for a tagged value"""
+    (tag, x), = v.items()
+    if tag == 'str':
+        return ''.join(chr(c) for c in x)
+    if tag == 'bytes':
+        return bytes.fromhex(x)
+    if tag == 'bytearray':
+        return bytearray.fromhex(x)
+    if tag == 'memoryview':
+        return memoryview(bytes.fromhex(x))
+    if tag == 'ints':
+        return list(x)
+    if tag == 'int':
+        return int(x)
+    if tag == 'none':
+        return None
+    if tag == 'reason':
+        return soup().LoginRejectReason(x)
+    raise ValueError(tag)
+
+
+def any_repr(case):
+    def one(v):
+        (tag, x), = v.items()
+        if tag in ('str', 'ints') and len(x) > 24:
+            return f'{tag}:{x[:24]}…({len(x)})'
+        if isinstance(x, str) and len(x) > 48:
+            return f'{tag}:{x[:48]}…({len(x) // 2})'
+        return f'{tag}:{x}'
+    return case['cls'] + '(' + ', '.join(one(v) for v in case['args']) + ')'
+
+
+def any_model_form(case):
+    """the packet as a `Pkt` s-expression when the model can express these arguments (str / bytes-like / int sequence), else None"""
+    k = CLASS_KIND[case['cls']]
+    a = case['args']
+    tag = lambda v: next(iter(v))
+    if not a:
+        return k
+    if k == 'loginReq':
+        if all(tag(v) == 'str' for v in a[:3]) and tag(a[3]) in ('str', 'int'):
+            q = a[3]['str'] if tag(a[3]) == 'str' else cps(str(a[3]['int']))
+            return [k, a[0]['str'], a[1]['str'], a[2]['str'], q]
+        return None
+    if k == 'loginAcc':
+        if tag(a[0]) == 'str' and tag(a[1]) == 'int':
+            return [k, a[0]['str'], a[1]['int']]
+        return None
+    if k == 'loginRej':
+        if tag(a[0]) == 'str' and a[0]['str'] in ([65], [83]):
+            return [k, a[0]['str'][0]]
+        if tag(a[0]) == 'reason':
+            return [k, ord(a[0]['reason'])]
+        return None
+    if k in ('seqData', 'unseqData'):
+        if tag(a[0]) in ('bytes', 'bytearray', 'memoryview'):
+            return [k, bytes.fromhex(a[0][tag(a[0])])]
+        if tag(a[0]) == 'ints':
+            return [k, bytes(a[0]['ints'])]
+        return None
+    if tag(a[0]) == 'str':
+        return [k, a[0]['str']]
+    return None
+
+
+_NEXT = None
+
+
+def following_packets():
+    """(bytes, packet) that follow the packet under test on the stream; encoded by the reference, not by the library"""
+    global _NEXT
+    if _NEXT is None:
+        _NEXT = [['seqData', b'\x00\x03S'], 'serverHb', ['debug', cps('next')], ['unseqData', b'']]
+    return _NEXT
+
+
+def read_stream(stream, cuts=()):
+    """feed `stream` (in the pieces given by cuts) to the library's SoupMessageReader and take messages out with its own
+    deserialize() until it has nothing more: ([(consumed bytes, message)], left-over, error-or-None)"""
+    import asyncio
+    from nasdaq_protocols.soup._reader import SoupMessageReader
+    res = {}
+
+    async def main():
+        async def on_msg(_m):
+            return None
+
+        async def on_close():
+            return None
+        rd = SoupMessageReader('c12', on_msg, on_close)
+        rd._task.cancel()
+        out, err = [], None
+        pieces, last = [], 0
+        for c in list(cuts) + [len(stream)]:
+            pieces.append(stream[last:c])
+            last = c
+        try:
+            for pc in pieces:
+                rd.on_data(pc)
+                for _ in range(len(stream) + 2):
+                    before = bytes(rd._buffer)
+                    msg, _stop, _skip = rd.deserialize()
+                    if msg is None:
+                        break
+                    out.append((before[:len(before) - len(rd._buffer)], msg))
+        except Exception as e:  # noqa
+            err = err_name(e)
+        res['r'] = (out, bytes(rd._buffer), err)
+        try:
+            await asyncio.sleep(0)
+        except BaseException:  # noqa
+            pass
+    loop = asyncio.new_event_loop()
+    try:
+        loop.run_until_complete(main())
+    finally:
+        loop.close()
+    return res['r']
+
+
+def any_build(case):
+    """('ok', n, bytes, packet) | ('err', stage, name)"""
+    s = soup()
+    try:
+        p = getattr(s, case['cls'])(*[any_value(v) for v in case['args']])
+    except Exception as e:  # noqa
+        return ('err', 'construct', err_name(e))
+    try:
+        n, b = p.to_bytes()
+        return ('ok', n, b, p)
+    except Exception as e:  # noqa
+        return ('err', 'encode', err_name(e))
+
+
+def any_failure(case, nxt_i=0, cut=None):
+    """the framing clauses of the statement on a packet the library built and encoded; None when they hold or nothing was built"""
+    s = soup()
+    r = any_build(case)
+    if r[0] != 'ok':
+        return None
+    _, n, b, p = r
+    cls = type(p)
+    if not isinstance(b, (bytes, bytearray)):
+        return f'to_bytes() returned a {type(b).__name__}, not bytes'
+    b = bytes(b)
+    if n != len(b):
+        return f'reported length {n} != {len(b)} bytes produced'
+    if len(b) < 3:
+        return f'only {len(b)} bytes produced: no room for length prefix and type character'
+    if int.from_bytes(b[:2], 'big') != len(b) - 2:
+        return (f'length prefix says {int.from_bytes(b[:2], "big")} but {len(b) - 2} bytes follow; wire={b[:40].hex()}'
+                + ('…' if len(b) > 40 else ''))
+    if chr(b[2]) != cls.Indicator or s.SoupMessage.ClassByIndicator.get(chr(b[2])) is not cls:
+        return f'type character {b[2:3]!r} is not the one of {cls.__name__}'
+    exact = case['cls'] in ('Debug', 'SequencedData', 'UnSequencedData') and \
+        all(next(iter(v)) in ('str', 'bytes', 'bytearray', 'memoryview') for v in case['args'])
+    d = impl_decode(b)
+    if d[0] == 'ok':
+        if type(d[2]) is not cls:
+            return f'decoding its own encoding gave a {type(d[2]).__name__}'
+        if d[1] != len(b):
+            return f'decode reported {d[1]} bytes consumed of {len(b)}'
+        if exact and not (d[2] == p and pkt_to_sx(d[2]) == pkt_to_sx(p)):
+            return f'decoded packet differs from the original: {str(d[2])[:60]!r} vs {str(p)[:60]!r}'
+    elif exact:
+        return f'decoding its own encoding raised {d[1]}'
+    # the same bytes on a stream, followed by another packet, through the library's own reader
+    nt = following_packets()[nxt_i % len(following_packets())]
+    nb = reference_layout(nt)
+    out, left, err = read_stream(b + nb, () if cut is None else (cut % (len(b) + len(nb) + 1),))
+    if d[0] != 'ok':
+        # a login packet whose fields cannot be read back (e.g. sequence 'abc'): the reader fails on it in the same way, the stream
+        # ends there by design (C07); the prefix clause above is what says the frame itself is sound
+        if err != d[1] or out:
+            return f'the reader took {len(out)} packet(s) and ended with {err} where decoding raises {d[1]}'
+        return None
+    if err is not None:
+        return f'reading the encoding followed by a {kind_of(nt)} packet from one stream raised {err} after {len(out)} packet(s)'
+    if len(out) != 2 or left:
+        return (f'the encoding followed by a {kind_of(nt)} packet came out of the reader as {len(out)} packet(s) '
+                f'({", ".join(type(m).__name__ for _, m in out[:4])}) with {len(left)} bytes left over')
+    if out[0][0] != b or type(out[0][1]) is not cls or (exact and not out[0][1] == p):
+        return f'the reader framed {len(out[0][0])} bytes as a {type(out[0][1]).__name__}, the packet is {len(b)} bytes of {cls.__name__}'
+    if out[1][0] != nb or pkt_to_sx(out[1][1]) != nt:
+        return f'the packet FOLLOWING it on the stream came out as {str(out[1][1])[:60]!r}, sent {sx(nt)[:60]}'
+    return None
+
+
+def shrink_any(case, nxt_i, cut):
+    """shorter texts / payloads, fewer non-default arguments — keeping a failure"""
+    def cands(c):
+        for i, v in enumerate(c['args']):
+            (tag, x), = v.items()
+            if tag in ('str', 'ints') and x:
+                for y in ([x[:len(x) // 2], x[len(x) // 2:]] if len(x) > 1 else []) + [x[:j] + x[j + 1:] for j in range(min(len(x), 12))]:
+                    yield dict(c, args=c['args'][:i] + [{tag: y}] + c['args'][i + 1:])
+            if tag in ('bytes', 'bytearray', 'memoryview') and x:
+                for y in (x[:(len(x) // 4) * 2], x[2:]):
+                    if y != x:
+                        yield dict(c, args=c['args'][:i] + [{tag: y}] + c['args'][i + 1:])
+    for _ in range(300):
+        for c in cands(case):
+            if any_failure(c, nxt_i, cut) is not None:
+                case = c
+                break
+        else:
+            break
+    return case
+
+
+def check_any(ctx, case, model_enc, nxt_i=0, cut=None):
+    r = any_build(case)
+    ctx.count('any:' + case['cls'] + ':' + ('built' if r[0] == 'ok' else r[1] + ':' + r[2]))
+    for v in case['args']:
+        tag = next(iter(v))
+        if tag == 'str':
+            m = max(v['str'], default=0)
+            tag = 'str:' + ('ascii' if m < 128 else 'latin1' if m < 256 else 'surrogate' if any(0xd800 <= c < 0xe000 for c in v['str'])
+                            else 'bmp' if m < 0x10000 else 'astral')
+        ctx.count('any-arg:' + tag)
+    rep = {'kind': 'any-packet', 'case': case, 'next': nxt_i, 'cut': cut}
+    t = any_model_form(case)
+    if model_enc is not None and t is not None:
+        got = ('ok ' + sx(bytes(r[2]))) if r[0] == 'ok' else 'err ' + r[2]
+        if model_enc != got:
+            ctx.disagree(f'soup.enc on {any_repr(case)[:100]}: model {model_enc[:60]} vs implementation {got[:60]}', rep)
+    if r[0] != 'ok':
+        return
+    f = any_failure(case, nxt_i, cut)
+    if f is None:
+        return
+    small = shrink_any(case, nxt_i, cut)
+    g = any_failure(small, nxt_i, cut) or f
+    ctx.violation(f'a packet the library builds and encodes, {any_repr(small)[:160]}: {g}',
+                  {'kind': 'any-packet', 'case': small, 'next': nxt_i, 'cut': cut})
+
+
 def run(ctx):
     rng = ctx.rng
     quick = ctx.tier == 'quick'
     n_rand = 1500 if quick else 20000
     n_mal = 300 if quick else 3000
     n_dec = 2500 if quick else 40000
+    n_any = 2500 if quick else 30000
     ctx.cov['rule'] = ('well-formed packets: every kind x field values within widths x payloads (all 256 single bytes, header-like, '
                        'lengths 0/1/2/255/256/32765/32766, random); distinct = distinct packet s-expression; '
                        'plus one packet OBJECT encoded, changed (every field assigned, bytearray payload changed in place; object built, '
                        'built on a bytearray, or decoded) and encoded again: every encoding is the layout of the current fields and decodes '
-                       'to an equal packet; plus malformed packets and decoder inputs (agreement model/implementation on result or error '
+                       'to an equal packet; plus EVERY packet the library builds and encodes (constructor arguments of any repertoire '
+                       '- ASCII, ISO-8859-1, BMP, astral, surrogates -, any length relative to the column, str/int/None/bytes-like/list '
+                       'arguments): reported length, length prefix = bytes that follow, type character, decode gives the same class '
+                       '(an equal packet for debug text and data payloads), and the library\'s own reader frames it and the packet that '
+                       'FOLLOWS it on the stream; plus malformed packets and decoder inputs (agreement model/implementation on result or error '
                        'class only)')
     # ---- corpus first
     import os
@@ -700,6 +1088,16 @@ def run(ctx):
                          {'kind': 'malformed-packet', 'packet': sx(t)})
         if r[0] == 'ok' and r[1] != len(r[2]):
             ctx.violation(f'{kind_of(t)}: reported length {r[1]} != {len(r[2])} bytes produced', {'kind': 'malformed-packet', 'packet': sx(t)})
+    # ---- every packet the library can build (arguments of any repertoire / width / type): framing clauses on whatever encodes
+    acases = [c['case'] for c in corpus if c.get('kind') == 'any-packet']
+    acases += boundary_any()
+    acases += [gen_any_case(rng) for _ in range(n_any)]
+    forms = [any_model_form(c) for c in acases]
+    alines = [f'soup.enc {sx(t)}' for t in forms if t is not None]
+    aans = iter(ctx.driver.ask(alines) if ctx.driver.available else [None] * len(alines))
+    for i, (c, t) in enumerate(zip(acases, forms)):
+        ctx.case('any ' + any_repr(c)[:200], nontrivial=True, sample_every=131)
+        check_any(ctx, c, next(aans) if t is not None else None, nxt_i=i, cut=(None if i % 3 else rng.randrange(1 << 16)))
     # ---- one packet object encoded, changed, encoded again (every kind x field x origin of the object x kind of change)
     pool = {}
     for t in wf:
@@ -779,6 +1177,17 @@ def replay(ctx, path):
         check_reencode(ctx, c, lays, ctx.driver.ask([model_obj_line(c)])[0] if ctx.driver.available else None)
         print('re-encoding case:', rep['source'], rep['packet'][:120], rep['ops'])
         print('first failing stage on the implementation:', reencode_failure(c, lays))
+    elif rep.get('kind') == 'any-packet':
+        c = rep['case']
+        t = any_model_form(c)
+        m = ctx.driver.ask([f'soup.enc {sx(t)}'])[0] if (t is not None and ctx.driver.available) else None
+        ctx.case(any_repr(c)[:200])
+        ctx.case('replay-marker')
+        check_any(ctx, c, m, rep.get('next', 0), rep.get('cut'))
+        r = any_build(c)
+        print('packet:', any_repr(c)[:300])
+        print('implementation:', (r[0], r[1], bytes(r[2])[:60].hex()) if r[0] == 'ok' else r, '\nmodel:', (m or '-')[:200])
+        print('framing clauses on the implementation:', any_failure(c, rep.get('next', 0), rep.get('cut')) or 'hold')
     elif rep.get('kind') == 'decode-bytes':
         b = bytes.fromhex(rep['bytes'])
         m = ctx.driver.ask([f'soup.dec {sx(b)}'])[0]
